@@ -1312,7 +1312,8 @@ def _spaces(tier, seed):
                     given = (k + j) % 3 != 0
                     yield {"sub": "rt", "kind": "rdscript", "route": r,
                            "spec": script_spec(*shp, system_spec(*sys_for[k % 3], *us[1:]), us[0],
-                                               (1000 * seed + 7 + k) if given else None,
+                                               # the boundary seeds 0, 2^31-1, 2^32-1 are part of every window
+                                               ([0, 2 ** 31 - 1, 2 ** 32 - 1][(k // 2) % 3] if k % 2 == 0 else (1000 * seed + 7 + k)) if given else None,
                                                pyseed=1000 * seed + k, npy=(j == 1))}
     sp.append(("scripts: %d shapes x all 3^5 unit-system combinations (script, network, members, space, system) x 6 routes + all 48 shapes (4 policies x 4 processing modes x 3 t_max forms; given and self-drawn seeds) x 3 combinations x 6 routes {dict, json, save/load absolute, relative, 2 multi-file layouts}"
                % len(srep), gen_scripts, len(srep) * 243 * 6 + 48 * 3 * 6, 30))
